@@ -40,7 +40,7 @@ func doReplay(prop string, scens []Scen, path string) int {
 		return 2
 	}
 	sc := scens[idx]
-	x := vsched.Run(r.Choices, vsched.Config{Trace: true}, sc.Body)
+	x := vsched.Run(r.Choices, vsched.Config{Trace: sc.Horizon == 0, Horizon: sc.Horizon}, sc.Body)
 	fmt.Println(strings.Join(x.Trace, "\n"))
 	msg, key := sc.Check(x)
 	fmt.Printf("observation: %s\n", sc.Obs(x))
